@@ -6,6 +6,7 @@ use proptest::prelude::*;
 use proptest::strategy::{BoxedStrategy, Strategy};
 use serde::{Deserialize, Serialize};
 use std::sync::OnceLock;
+use std::collections::BTreeMap;
 
 // ------------------------------------------------------------------------------------------
 // MNode
@@ -1077,4 +1078,111 @@ fn braille_char_pools_uncached(code: &str) -> (Vec<char>, Vec<char>) {
     let short = unicode_keys(&format!("{}/unicode.yaml", base));
     let full: Vec<char> = unicode_keys(&format!("{}/unicode-full.yaml", base)).into_iter().filter(|c| !short.contains(c)).collect();
     (short, full)
+}
+
+// ------------------------------------------------------------------------------------------
+// words of the definition files (Rules/definitions.yaml, Rules/Languages/*/definitions.yaml, Rules/Braille/*/definitions.yaml)
+
+#[derive(Debug, Clone)]
+pub struct DefWord {
+    pub file: String,
+    pub set: String,
+    pub word: String,
+    /// the set is defined by only some of the files of its kind (languages / braille codes): what an earlier
+    /// configuration loaded can only show through such sets
+    pub rare: bool,
+}
+
+/// every short string entry (set member or map key) of every definitions.yaml under the rules directory
+pub fn definition_words() -> &'static Vec<DefWord> {
+    static W: OnceLock<Vec<DefWord>> = OnceLock::new();
+    W.get_or_init(|| {
+        let mut files: Vec<(String, String)> = vec![("root".to_string(), "/repo/Rules/definitions.yaml".to_string())];
+        for (kind, base) in [("lang", "/repo/Rules/Languages"), ("braille", "/repo/Rules/Braille")] {
+            let mut dirs: Vec<_> = std::fs::read_dir(base).map(|r| r.filter_map(|e| e.ok()).collect()).unwrap_or_else(|_| vec![]);
+            dirs.sort_by_key(|d| d.file_name());
+            for d in dirs {
+                let p = d.path().join("definitions.yaml");
+                if p.is_file() && d.file_name() != "zz" {
+                    files.push((kind.to_string(), p.display().to_string()));
+                }
+            }
+        }
+        let mut out: Vec<(String, DefWord)> = vec![];
+        let mut defined_in: BTreeMap<(String, String), usize> = BTreeMap::new();
+        let mut files_of_kind: BTreeMap<String, usize> = BTreeMap::new();
+        for (kind, path) in &files {
+            let Ok(text) = std::fs::read_to_string(path) else { continue };
+            let Ok(docs) = yaml_rust::YamlLoader::load_from_str(&text) else { continue };
+            *files_of_kind.entry(kind.clone()).or_default() += 1;
+            let Some(items) = docs.first().and_then(|d| d.as_vec()) else { continue };
+            for item in items {
+                let Some(h) = item.as_hash() else { continue };
+                for (k, v) in h {
+                    let Some(set) = k.as_str() else { continue };
+                    if set == "include" {
+                        continue;
+                    }
+                    let mut words: Vec<String> = vec![];
+                    if let Some(a) = v.as_vec() {
+                        words.extend(a.iter().filter_map(|x| x.as_str().map(|s| s.to_string())));
+                    } else if let Some(m) = v.as_hash() {
+                        words.extend(m.keys().filter_map(|x| x.as_str().map(|s| s.to_string())));
+                    }
+                    *defined_in.entry((kind.clone(), set.to_string())).or_default() += 1;
+                    for w in words {
+                        let n = w.chars().count();
+                        if n >= 1 && n <= 12 && !w.chars().any(|c| c.is_control()) {
+                            out.push((kind.clone(), DefWord { file: path.clone(), set: set.to_string(), word: w, rare: false }));
+                        }
+                    }
+                }
+            }
+        }
+        out.into_iter()
+            .map(|(kind, mut w)| {
+                let n = defined_in.get(&(kind.clone(), w.set.clone())).copied().unwrap_or(0);
+                w.rare = kind != "root" && n * 2 <= files_of_kind.get(&kind).copied().unwrap_or(0);
+                w
+            })
+            .collect()
+    })
+}
+
+/// an operand made of a definition word: as one token, or spelled as single-letter identifiers (half of the picks come
+/// from the sets that only some languages / codes define)
+pub fn definition_operand() -> BoxedStrategy<MNode> {
+    let all = definition_words();
+    let rare: Vec<DefWord> = all.iter().filter(|w| w.rare).cloned().collect();
+    if all.is_empty() {
+        return Just(MNode::mi("x")).boxed();
+    }
+    // choose the set first (uniformly), then a member: a three-word set is then as likely as a three-hundred-word one
+    fn by_set(words: &[DefWord]) -> Vec<Vec<String>> {
+        let mut m: BTreeMap<(String, String), Vec<String>> = BTreeMap::new();
+        for w in words {
+            m.entry((w.file.clone(), w.set.clone())).or_default().push(w.word.clone());
+        }
+        m.into_values().collect()
+    }
+    let pools = [by_set(all), if rare.is_empty() { by_set(all) } else { by_set(&rare) }];
+    (0..2usize, any::<u16>(), any::<u16>(), 0..4u8)
+        .prop_map(move |(pool, s, w, form)| {
+            let sets = &pools[pool];
+            let set = &sets[(s as usize * sets.len()) >> 16];
+            let word = &set[(w as usize * set.len()) >> 16];
+            match form {
+                0 => MNode::mi(word),
+                1 => MNode::mtext(word),
+                _ => {
+                    let letters: Vec<MNode> = word.chars().map(|c| if c.is_ascii_digit() { MNode::mn(&c.to_string()) } else { MNode::mi(&c.to_string()) }).collect();
+                    if letters.len() == 1 {
+                        letters.into_iter().next().unwrap()
+                    } else {
+                        MNode::row(letters)
+                    }
+                }
+            }
+        })
+        .boxed()
 }
